@@ -30,11 +30,16 @@ type c15Plan struct {
 	Burst         int      `json:"burst"` // > 0: first this many requests at once to a target that never answers
 	Restart       bool     `json:"restart,omitempty"` // the proxy is restarted from its state file after the deploy: the faults meet the restored service
 	Prefix        bool     `json:"prefix,omitempty"` // the service is mounted below /app (prefix stripped before forwarding, the CLI default)
+	// DrainCmd (pause | stop): while a held-then-* request waits at the target, this command begins to drain the target
+	// (drain timeout far beyond the fault): the target fails while it is being drained, not because of it - still a 502
+	DrainCmd string `json:"drain_cmd,omitempty"`
 }
 
 var c15Faults = []string{"none", "no-listener", "accept-close", "read-close", "reset", "garbage", "partial-status", "partial-headers-close",
 	"partial-headers-stall", "partial-headers-reset", "silence", "late-head", "head-then-close-short", "head-then-reset", "chunk-partial-close", "head-only-close",
-	"early-then-reset", "early-then-garbage", "early-then-silence"}
+	"early-then-reset", "early-then-garbage", "early-then-silence", "held-then-close", "held-then-reset", "held-then-garbage"}
+
+const c15HeldMs = 200 // held-then-*: the target fails this long after it had the request
 
 func c15Gen(t *rapid.T) c15Plan {
 	p := c15Plan{}
@@ -52,6 +57,9 @@ func c15Gen(t *rapid.T) c15Plan {
 			rq.DelayMs = p.RespTimeoutMs + rapid.SampledFrom([]int{-2, -1, 0, 1, -50, 50}).Draw(t, "late-by")
 		}
 		p.Reqs = append(p.Reqs, rq)
+	}
+	if rapid.IntRange(0, 2).Draw(t, "drain-cmd?") == 0 {
+		p.DrainCmd = rapid.SampledFrom([]string{"pause", "stop"}).Draw(t, "drain-cmd")
 	}
 	if rapid.IntRange(0, 19).Draw(t, "burst") == 0 {
 		p.Burst = rapid.SampledFrom([]int{101, 140}).Draw(t, "burst-n")
@@ -98,6 +106,12 @@ func c15Script(f c15Req, keepAlive bool) []vfRawStep {
 		return []vfRawStep{{Kind: "bytes", Data: c15Early}, {Kind: "stall"}}
 	case "late-head":
 		return []vfRawStep{{Kind: "delay", DelayMs: f.DelayMs}, {Kind: "bytes", Data: c15OKClose}, {Kind: "close"}}
+	case "held-then-close":
+		return []vfRawStep{{Kind: "delay", DelayMs: c15HeldMs}, {Kind: "close"}}
+	case "held-then-reset":
+		return []vfRawStep{{Kind: "delay", DelayMs: c15HeldMs}, {Kind: "reset"}}
+	case "held-then-garbage":
+		return []vfRawStep{{Kind: "delay", DelayMs: c15HeldMs}, {Kind: "bytes", Data: "\x16\x03\x01 this is not HTTP\r\n\r\n"}, {Kind: "close"}}
 	case "head-then-close-short":
 		return []vfRawStep{{Kind: "bytes", Data: "HTTP/1.1 200 OK\r\nContent-Length: 100\r\nX-Vf-Target: raw\r\n\r\n" + strings.Repeat("a", 40)}, {Kind: "delay", DelayMs: 5}, {Kind: "close"}}
 	case "head-then-reset":
@@ -190,7 +204,38 @@ func c15Run(t *testing.T, p c15Plan) (res vfResult) {
 				raw = fmt.Sprintf("GET %s/x%d HTTP/1.1\r\nHost: h.test\r\n\r\n", mount, i)
 			}
 			start := w.now()
-			resp := f.rawExchange(c13ClientIP, [][]byte{[]byte(raw)}, nil, method, 0)
+			var resp *vfRawResp
+			if strings.HasPrefix(rq.Fault, "held-then-") && p.DrainCmd != "" && timeout > vfMs(c15HeldMs+vfRawThinkMs) {
+				ch := make(chan *vfRawResp, 1)
+				go func() { ch <- f.rawExchange(c13ClientIP, [][]byte{[]byte(raw)}, nil, method, 0) }()
+				time.Sleep(vfMs(c15HeldMs / 2))
+				synctest.Wait()
+				w.noteWait(5 * time.Second)
+				cmd := w.goCmd(func() error {
+					if p.DrainCmd == "pause" {
+						return vfPause(r, "svc", 10*time.Second, 5*time.Second)
+					}
+					return vfStop(r, "svc", 10*time.Second, "closed")
+				})
+				resp = <-ch
+				<-cmd.done
+				if cmd.res.Err != nil || cmd.res.Panicked != "" {
+					res.failf("setup-failed", "%s: %s while the request waited: %v %s", desc, p.DrainCmd, cmd.res.Err, cmd.res.Panicked)
+					return
+				}
+				if cmd.res.End != resp.End {
+					res.failf("drain-waits", "%s: the %s draining the target returned at %v, the failed request ended at %v", desc, p.DrainCmd, cmd.res.End, resp.End)
+					return
+				}
+				if err := vfResume(r, "svc"); err != nil {
+					res.failf("setup-failed", "%s: resume: %v", desc, err)
+					return
+				}
+				res.label("target-fails-while-being-drained")
+				interesting = true
+			} else {
+				resp = f.rawExchange(c13ClientIP, [][]byte{[]byte(raw)}, nil, method, 0)
+			}
 			synctest.Wait()
 			rt.l.refuse = nil
 			seen := rt.seenCopy()[nseen:]
@@ -208,6 +253,14 @@ func c15Run(t *testing.T, p c15Plan) (res vfResult) {
 				wantStatus, wantAt = 502, start
 			case "read-close", "reset", "garbage", "partial-status", "partial-headers-close", "partial-headers-reset", "early-then-reset", "early-then-garbage":
 				wantStatus, wantAt = 502, got+vfMs(vfRawThinkMs)
+			case "held-then-close", "held-then-reset", "held-then-garbage":
+				if held := vfMs(c15HeldMs + vfRawThinkMs); held < timeout {
+					wantStatus, wantAt = 502, got+held
+				} else if held > timeout {
+					wantStatus, wantAt = 504, got+timeout
+				} else {
+					wantStatus = -1
+				}
 			case "partial-headers-stall", "silence", "early-then-silence":
 				wantStatus, wantAt = 504, got+timeout
 			case "late-head":
@@ -234,7 +287,7 @@ func c15Run(t *testing.T, p c15Plan) (res vfResult) {
 				}
 				st := resp.Resp.StatusCode
 				if wantStatus == -1 {
-					if st != 200 && st != 504 {
+					if st != 200 && st != 504 && !(st == 502 && strings.HasPrefix(rq.Fault, "held-then-")) {
 						res.failf("wrong-status", "%s: client got %d, want 200 or 504 (tie)", desc, st)
 						return
 					}
